@@ -117,6 +117,22 @@ def akai_payload4():
     return bytes(b)
 
 
+def akai_payload5():
+    """an INCOMPLETE copy: the image file ends inside the audio of the second sample (sector 6 of chain 5, 6), and inside
+    the right half of an L/R pair; the headers are readable, the export writes the audio that is there"""
+    spec = {"parts": [{"vols": [{"name": "VOL", "dir": [3], "files": [
+        {"name": "WHOLE", "n": 300, "chain": [4], "seq": 1},
+        {"name": "PAD-L", "n": 5000, "chain": [7, 8], "seq": 3},
+        {"name": "PAD-R", "n": 5000, "chain": [9, 10], "seq": 4},
+        {"name": "CUT", "n": 6000, "chain": [5, 11], "seq": 2}]}]}]}
+    img = A.build_akai(A.model_from_spec(spec))[0]
+    return img[:10 * A.SECTOR + 1000]
+
+
+def akai5_paths():
+    return ["", "A:", "A:/VOL", "A:/VOL/WHOLE", "A:/VOL/CUT", "A:/VOL/PAD-L", "nope"]
+
+
 def akai4_paths():
     return ["", "A:", "A:/GOOD", "A:/BAD", "A:/LAST", "A:/GOOD/SMP", "A:/BAD/LOST", "A:/LAST/END", "A:/BAD/x", "nope",
             "B:", "B:/HOLE", "B:/HOLE/KICK", "B:/HOLE/SNARE", "B:/HOLE/WIPED"]
@@ -196,7 +212,7 @@ _PAY = {}
 
 def payload(fmt):
     if fmt not in _PAY:
-        _PAY[fmt] = {"akai": akai_payload, "roland": roland_payload, "akai2": akai_payload2, "akai3": akai_payload3, "akai4": akai_payload4}[fmt]()
+        _PAY[fmt] = {"akai": akai_payload, "roland": roland_payload, "akai2": akai_payload2, "akai3": akai_payload3, "akai4": akai_payload4, "akai5": akai_payload5}[fmt]()
     return _PAY[fmt]
 
 
@@ -247,19 +263,21 @@ class Subject:
             paths = self.paths
         elif base == "akai4":
             paths = akai4_paths()
+        elif base == "akai5":
+            paths = akai5_paths()
         else:
             paths = {"akai": akai_paths, "roland": roland_paths, "cdda": cdda_paths}[base]()
         return [["ls", p] for p in paths] + [["export"], ["export_same"]]
 
     def fresh(self):
-        if self.fmt in ("akai", "roland", "akai2", "akai3", "akai4"):
+        if self.fmt in ("akai", "roland", "akai2", "akai3", "akai4", "akai5"):
             self.bio = io.BytesIO(payload(self.fmt))
             from smpl_extract.actions import determine_image_type
             return determine_image_type(self.bio)
         return tree.open_image(self.path)
 
     def unchanged(self):
-        if self.fmt in ("akai", "roland", "akai2", "akai3", "akai4"):
+        if self.fmt in ("akai", "roland", "akai2", "akai3", "akai4", "akai5"):
             return self.bio.getvalue() == payload(self.fmt)
         if self.fmt == "cdda":
             with open(os.path.join(self.scratch, "disc.bin"), "rb") as f:
@@ -268,7 +286,7 @@ class Subject:
             return f.read() == payload(self.fmt[:-5])
 
     def apply(self, img, op):
-        if self.fmt == "akai4":
+        if self.fmt in ("akai4", "akai5"):
             # on the damaged image a request may fail: then HOW it fails is the observable
             try:
                 return self._apply(img, op)
@@ -307,7 +325,7 @@ class Check(CheckBase):
     title = "Results depend only on the image bytes, not on what was looked at before"
     rule = ("per image (AKAI: 2 partitions x 2 volumes, L/R pair, fragmented chains, a program, a file filling its last "
             "sector; Roland: 2 volumes + orphan performance, shared sample, reverse mode, start point > 0, two samples in one cluster chain reached through different performances, L/R pair; CDDA: duplicate and missing "
-            "titles; AKAI and Roland again as read-only real files; a DAMAGED AKAI image (one volume cannot be realised: requests touching it fail, and must fail the same way under every history); a third AKAI image whose names are sanitised differently by role "
+            "titles; AKAI and Roland again as read-only real files; a DAMAGED AKAI image (one volume cannot be realised: requests touching it fail, and must fail the same way under every history; its second partition holds a volume with one unparsable file among good ones); an INCOMPLETE AKAI image that ends inside a mono sample's audio and inside the right half of an L/R pair; a third AKAI image whose names are sanitised differently by role "
             "(ending in '-' / '.', '+'), where one raw name is a volume in one partition and a sample in another and where two "
             "sibling volumes (and two sibling files) carry the same stored name, paths discovered through its own listings) the alphabet is ls(p) for every node path p, three invalid "
             "paths, export into a fresh directory, and export into one fixed directory (so that a repeated export writes over "
@@ -322,14 +340,14 @@ class Check(CheckBase):
     def shards(self):
         out = []
         self._base = {}
-        for fmt in ("akai", "roland", "cdda", "akai2", "akai3", "akai4"):
+        for fmt in ("akai", "roland", "cdda", "akai2", "akai3", "akai4", "akai5"):
             self._base[fmt] = pristine_baseline(fmt)
         # cross-image histories: one operation on image A, then one on image B (same names, other bytes) in the same process
         with scratch_dir("c16s") as d:
             nops = len(Subject("akai", d).ops())
         for first in range(nops):
             out.append({"fmt": "akai_cross", "first": first, "baseline": self._base["akai2"]})
-        for fmt in ("akai", "roland", "cdda", "akai_file", "roland_file", "akai3", "akai4"):
+        for fmt in ("akai", "roland", "cdda", "akai_file", "roland_file", "akai3", "akai4", "akai5"):
             with scratch_dir("c16s") as d:
                 nops = len(Subject(fmt, d, self._base.get(fmt, {}).get("__paths__")).ops())
             base = fmt.replace("_file", "")
